@@ -585,6 +585,37 @@ def _content(ctx, em):
            pn, construct='placement node')
 
 
+def _tolerated_faults(ctx, em):
+    """C12.5: the only ZooKeeper fault _cache tolerates is the node not
+    being there.  Any other fault must escape (the agent restarts and
+    synchronises again) - swallowing it ends the synchronisation "normally"
+    with a placed instance missing from the cache."""
+    cache = em.methods.get('_cache')
+    ctx.require(cache is not None, 'EventMgr._cache')
+    count = 0
+    for sub in K.walk_no_nested(cache.node):
+        if not isinstance(sub, ast.Try):
+            continue
+        reads = [c for st in sub.body for c in K.calls(st)
+                 if K.callee_text(c).startswith('zkutils.') or
+                 'zkclient' in N.txt(c.func)]
+        if not reads:
+            continue
+        for hdl in sub.handlers:
+            count += 1
+            types = hdl.type.elts if isinstance(hdl.type, ast.Tuple) else \
+                [hdl.type]
+            ok = hdl.type is not None and all(
+                N.txt(t).endswith('NoNodeError') for t in types)
+            ctx.ob('C12.5', cache, hdl, ok,
+                   'a ZooKeeper read of _cache tolerates exactly the '
+                   'missing node (handler: %s)' % (
+                       N.txt(hdl.type) if hdl.type is not None else 'bare'),
+                   construct='tolerated fault %s' % (
+                       N.txt(hdl.type) if hdl.type is not None else 'bare'))
+    ctx.require(count >= 2, 'handlers around the ZooKeeper reads of _cache')
+
+
 def _first_sync(ctx, em):
     """The first synchronisation after a start re-checks the files that
     already exist: the watch callback asks for check_existing while the
@@ -616,6 +647,20 @@ def _first_sync(ctx, em):
                     flag = K.recv_text(arg.operand)
                     watch = name
     ctx.require(flag is not None, 'watch callback calling _synchronize')
+    # every notification synchronises: no path through the callback leaves
+    # before _synchronize was called (an "empty placement, nothing to do"
+    # shortcut would keep the leftovers of a drained node for ever)
+    wfunc = nested[watch]
+    wgraph = ctx.cfg(wfunc)
+    skip = K.find_path(
+        wgraph.entry, [wgraph.exit],
+        cut_node=lambda n: any(K.is_meth(c, '_synchronize')
+                               for c in C.node_calls(n)),
+        follow_exc=False)
+    ctx.ob('C12.1', wfunc, None, skip is None,
+           'every placement notification reaches _synchronize',
+           path=K.describe(skip) if skip else None,
+           construct='watch callback always synchronises')
     registered = 0
     for func in [run] + list(nested.values()):
         graph = ctx.cfg(func)
@@ -656,6 +701,7 @@ def check(ctx):
         _owner_package(ctx)
     em = _sync(ctx)
     _first_sync(ctx, em)
+    _tolerated_faults(ctx, em)
     _owner(ctx)
     _write_safe(ctx)
     _invisible(ctx, em)
